@@ -5,7 +5,7 @@
 jobs=${1:-3}
 out=/dev/shm/seedall; mkdir -p $out; rm -f $out/*.res
 one() {
-  id=$1; prop=$(python3 -c "import json;print(json.load(open('/verif/seeded/$id/meta.json'))['property'])")
+  id=$1; prop=$(python3 -c "import json;m=json.load(open('/verif/seeded/$id/meta.json'));print(m.get('check',m['property']))")
   wt=/tmp/seedall-$id
   git -C /repo worktree remove --force $wt >/dev/null 2>&1; rm -rf $wt
   git -C /repo worktree add --detach $wt HEAD -q || { echo "$id $prop WORKTREE-FAILED" > $out/$id.res; return; }
